@@ -27,6 +27,7 @@ func checkC18(p *Prog, r *Report) {
 	rRows := r.Rule("rows", "rows are newline-free, non-empty, sorted and distinct, and the self row is present")
 	rScan := r.Rule("scan-total", "every line of the payload is examined; tagged lines are split into name and description")
 	rOwn := r.Rule("result-owned", "the returned function text lives in memory allocated by this call (not a pooled, global or field buffer a later call rewrites)")
+	checkC18OnePayload(p, r, r.Rule("one-list-per-payload", "the programs hand all of their sources to one Converter.From call: the list function is made once, from the whole payload"))
 
 	gf := p.Func(sffPkg, "", "GenFuncList")
 	if nil == gf {
@@ -1260,4 +1261,35 @@ func sortedSetRows(v ssa.Value) *setRows {
 		return nil
 	}
 	return out
+}
+
+// checkC18OnePayload: From appends one tab_list made from what that call
+// converted.  A program which converts its sources one call at a time emits
+// one tab_list per source, and the last definition — listing the last source
+// only — is the one the shell keeps.
+func checkC18OnePayload(p *Prog, r *Report, ru *Rule) {
+	n := 0
+	for _, fn := range p.Funcs() {
+		if nil == fn.Pkg || strings.HasSuffix(fn.Pkg.Pkg.Path(), "lib/shellfuncsfile") {
+			continue
+		}
+		eachInstr(fn, func(i ssa.Instruction) {
+			cc := callCommon(i)
+			if nil == cc || nil == cc.StaticCallee() || "From" != cc.StaticCallee().Name() || "Converter" != recvTypeName(cc.StaticCallee()) {
+				return
+			}
+			n++
+			c := fmt.Sprintf("%s→Converter.From#%d", fnName(fn), n)
+			/* Can this call be reached again from itself? */
+			again := reachQ{From: locOf(i), Target: func(j ssa.Instruction) bool { return j == i }}.run()
+			if nil != again {
+				ru.Bad(c, posOf(i), "Converter.From is called once per source, in a loop: each call appends its own list function, made from that source alone, and the last one shadows the others — functions of the earlier sources are not listed")
+			} else {
+				ru.OK(c, posOf(i), "one call converts everything this program was given")
+			}
+		})
+	}
+	if n < 2 {
+		ru.Unproven("module:Converter.From", token.NoPos, "%d calls of Converter.From found outside its package, at least 2 expected (the listener's Ctrl+I generator and the stand-alone converter)", n)
+	}
 }
